@@ -44,7 +44,23 @@ func lenClassName(n int) string {
 
 // checkDataRoundTrip is the C01 oracle for one data frame.
 func checkDataRoundTrip(c *core.Ctx, d dataCase, mic [4]byte) {
+	checkDataRoundTripOn(c, d, mic, nil)
+}
+
+// checkDataRoundTripOn: when base is given, the frame value is produced the way
+// applications often do it - by editing a frame that was decoded before.
+func checkDataRoundTripOn(c *core.Ctx, d dataCase, mic [4]byte, base *lorawan.PHYPayload) {
 	phy := d.Lib()
+	if base != nil {
+		if bmp, ok := base.MACPayload.(*lorawan.MACPayload); ok {
+			fresh := phy.MACPayload.(*lorawan.MACPayload)
+			bmp.FHDR.DevAddr, bmp.FHDR.FCnt, bmp.FHDR.FOpts = fresh.FHDR.DevAddr, fresh.FHDR.FCnt, fresh.FHDR.FOpts
+			bmp.FHDR.FCtrl.ADR, bmp.FHDR.FCtrl.ADRACKReq, bmp.FHDR.FCtrl.ACK, bmp.FHDR.FCtrl.FPending, bmp.FHDR.FCtrl.ClassB = fresh.FHDR.FCtrl.ADR, fresh.FHDR.FCtrl.ADRACKReq, fresh.FHDR.FCtrl.ACK, fresh.FHDR.FCtrl.FPending, fresh.FHDR.FCtrl.ClassB
+			bmp.FPort, bmp.FRMPayload = fresh.FPort, fresh.FRMPayload
+			base.MHDR = phy.MHDR
+			phy = *base
+		}
+	}
 	phy.MIC = lorawan.MIC(mic)
 	var b []byte
 	var err error
@@ -348,6 +364,15 @@ func runC01(c *core.Ctx) {
 			c.Sample("data-random", map[string]interface{}{"mtype": d.Spec.MType, "devaddr": core.Hex(d.Spec.DevAddr[:]), "fcnt": d.Spec.FCnt, "fopts": core.Hex(d.Spec.FOpts), "fport": d.Spec.FPort, "frmpayload_len": len(d.Spec.FRMPayload), "wire": core.Hex(append(d.Spec.Msg(), mic[:]...))})
 		}
 		checkDataRoundTrip(c, d, mic)
+		if i%4 == 0 {
+			// the same value built by editing a frame that was decoded before
+			prev := genDataCase(r, anyData())
+			var base lorawan.PHYPayload
+			if base.UnmarshalBinary(append(prev.Spec.Msg(), 9, 9, 9, 9)) == nil {
+				checkDataRoundTripOn(c, d, mic, &base)
+				c.Count("frames.edited-after-decode", 1)
+			}
+		}
 	}
 
 	// 2. boundary grid of the header length arithmetic (complete in both tiers)
